@@ -27,6 +27,13 @@ One module event = `activate` (timer bump: wake due slots) ; `Harness::exec` (ha
 loop of the current-thread runtime: freshly spawned tasks sit in the local queue, tasks woken by `activate`
 in the inject queue, `Core::next_task` prefers the inject queue on every 31st tick) ; `deactivate`.
 
+Modules may shut themselves down (`shut`, `restart d` steps = `ModuleContext::shutdown` / `shutdow_and_restart_in`):
+the request is looked at by `buf_process` after the event (`processShutdown`): `active = false`, the tokio runtime and
+all its tasks are dropped (their registered sleeps leave their timer slots, by sleep id), `ModuleRef::reset` builds the
+runtime of the next incarnation — seeded with the next element of the random stream, drawn right there — and runs
+`Module::reset` on it; an inactive module ignores messages and wake-ups (no `Harness::exec`); the
+`ModuleRestartEvent` sets `active` and replays the start stage.  `seeds` records (ghost) the seed of every runtime.
+
 The canonical trace (`Obs`) is what the harness logs: time, module PATH, what, who, peer path, numbers —
 no identifiers.
 -/
@@ -60,6 +67,8 @@ inductive Step
   | spawn (task : String)
   | sleep (d : Nat)
   | sel (ds : List Nat)
+  | shut                         -- `current().shutdown()`
+  | restart (d : Nat)            -- `current().shutdow_and_restart_in(d)`
 deriving Repr, DecidableEq
 
 inductive On
@@ -108,6 +117,7 @@ inductive KEvent
   | deliver (mod : Nat) (m : Msg)     -- HandleMessageEvent (module = index in tree order)
   | exitConn (mod : Nat) (m : Msg)    -- MessageExitingConnection whose gate chain ends at `mod`
   | wakeup (mod : Nat)                -- AsyncWakeupEvent
+  | restart (mod : Nat)               -- ModuleRestartEvent
 deriving Repr, DecidableEq
 
 /-- a `Sleep`: id, deadline, `handle.is_some()` -/
@@ -141,6 +151,9 @@ structure ModRt where
   tick : Nat := 0                      -- `Core::tick`
   localq : List Nat := []              -- `Core::tasks`
   inject : List Nat := []              -- `Shared::inject`
+  active : Bool := true                -- `ModuleContext::active`
+  shutdownReq : Option (Option Nat) := none   -- `ModuleContext::shutdown_task` (restart time)
+  inc : Nat := 0                       -- incarnation = number of `Module::reset` calls (the harness counts them)
 deriving Repr
 
 structure Sim where
@@ -153,6 +166,8 @@ structure Sim where
   nextSleep : Nat                      -- `Sleep::new` calls so far
   trace : List Obs                     -- newest first
   fault : Option String
+  dropped : List (String × String) := []   -- (module path, task tag) of unfinished tasks dropped by a shutdown
+  seeds : List (String × Nat) := []        -- ghost: (module path, `RngSeed` of a tokio runtime built for it), in build order
 
 def Sim.now (s : Sim) : Nat := s.fes.cur
 
@@ -206,6 +221,20 @@ def Sim.bump (s : Sim) : Sim := { s with serial := s.serial + 1 }
 def mkMsg (s : Sim) (mi : Nat) (kind ttl : Nat) : Msg :=
   ⟨kind, ttl - 1, s.serial + 1, (s.mods[mi]?).map (·.id)⟩
 
+/-- at most this many shutdowns per module and run (scripts must terminate; the harness counts `reset` calls) -/
+def maxInc : Nat := 2
+
+/-- `current().shutdown()` / `shutdow_and_restart_in(d)`: only `shutdown_task` is written; the module stays
+    active until `buf_process` looks at it after the event -/
+def requestShutdown (s : Sim) (mi : Nat) (path who : String) (d : Option Nat) : Sim :=
+  match s.mods[mi]? with
+  | none => s
+  | some m =>
+    if m.inc < maxInc then
+      (s.log path "shutdown" who "-" (match d with | none => [0] | some d => [1, d])).updMod mi
+        (fun m => { m with shutdownReq := some (d.map (s.now + ·)) })
+    else s
+
 /-- the steps that handlers and tasks share (`step_sync` of the harness) -/
 def stepSync (net : Net) (s : Sim) (mi : Nat) (path : String) (ttl : Nat) (who : String) : Step → Sim
   | .draw => (s.pop.2).log path "draw" who "-" [s.pop.1]
@@ -230,6 +259,8 @@ def stepSync (net : Net) (s : Sim) (mi : Nat) (path : String) (ttl : Nat) (who :
   | .spawn _ => s
   | .sleep _ => s
   | .sel _ => s
+  | .shut => requestShutdown s mi path who none
+  | .restart d => requestShutdown s mi path who (some d)
 
 def findTask (ts : List (String × List Step)) (tag : String) : Option (List Step) :=
   (ts.find? (fun t => t.1 = tag)).map (·.2)
@@ -406,6 +437,7 @@ inductive Callback
   | message (m : Msg)
   | wakeup
   | end_
+  | restart                      -- `module_restart`: `active = true`, then the start stage again
 deriving Repr
 
 /-- the handler callback of the event -/
@@ -416,15 +448,21 @@ def runCallback (net : Net) (s : Sim) (mi : Nat) (m : ModRt) : Callback → Sim
       mi m.path msg.ttl (findRule net.rules m.path (.msg msg.kind))
   | .wakeup => s
   | .end_ => runHandler net (s.log m.path "end" "H" "-" []) mi m.path m.ttl0 (findRule net.rules m.path .end_)
+  | .restart => runHandler net (s.log m.path "start" "H" "-" []) mi m.path m.ttl0 (findRule net.rules m.path .start)
 
 /-- `buf_process`: flush `BUF_CTX.events` through `Runtime::add_event`, in push order -/
 def Sim.flush (s : Sim) : Sim :=
   s.buf.foldl (fun s p => s.schedule p.1 p.2) { s with buf := [] }
 
+/-- ghost: remember the seed that a tokio runtime of module `path` is built with — the element that the `pop`
+    just took from the front of the stream of `before` (nothing is recorded when the stream is exhausted) -/
+def Sim.recordSeed (s : Sim) (path : String) (before : Sim) : Sim :=
+  { s with seeds := s.seeds ++ (before.stream.head?.toList.map (fun x => (path, x))) }
+
 /-- `Harness::exec` -> `Rt::current`: the first event of a module builds its tokio runtime, whose
     `RngSeed` is one draw from the global RNG -/
-def seedStage (s : Sim) (mi : Nat) (seeded : Bool) : Sim :=
-  if seeded then s else (s.pop.2).updMod mi (fun m => { m with seeded := true })
+def seedStage (s : Sim) (mi : Nat) (path : String) (seeded : Bool) : Sim :=
+  if seeded then s else ((s.pop.2).recordSeed path s).updMod mi (fun m => { m with seeded := true })
 
 /-- queued tasks + 1 (the tick that finds nothing) -/
 def execFuel (s : Sim) (mi : Nat) : Nat :=
@@ -441,17 +479,80 @@ def deactivate (skipEmpty : Bool) (s : Sim) (mi : Nat) : Sim :=
     | some t => (s.updMod mi (fun m => { m with nextWakeup := some t })).schedule (.wakeup mi) t
     | none => s
 
+def TaskRt.finished (t : TaskRt) : Bool :=
+  match t.prog, t.wait with
+  | [], .run => true
+  | _, _ => false
+
+/-- dropping a task drops its `Sleep`s: every registered one removes its entry from its slot, by sleep id -/
+def dropWait (p : List Timer.Slot) : Wait → List Timer.Slot
+  | .run => p
+  | .sleeping sl => if sl.reg then Timer.removeEntry p sl.deadline sl.id else p
+  | .selecting ss => ss.foldl (fun p sl => if sl.reg then Timer.removeEntry p sl.deadline sl.id else p) p
+
+/-- `Rt::shutdown`: the module's tokio runtime is dropped and with it all its tasks (in an order that is the
+    subject of finding F-C04a; the resulting state does not depend on it); a fresh `Core` starts at tick 0 -/
+def killTasks (m : ModRt) : ModRt :=
+  { m with pending := m.tasks.foldl (fun p t => dropWait p t.wait) m.pending,
+           tasks := m.tasks.map (fun t => { t with prog := [], wait := .run }),
+           localq := [], inject := [], tick := 0 }
+
+def unfinishedTags (m : ModRt) : List (String × String) :=
+  (m.tasks.filter (fun t => !t.finished)).map (fun t => (m.path, t.tag))
+
+def Sim.addDropped (s : Sim) (l : List (String × String)) : Sim := { s with dropped := s.dropped ++ l }
+
+/-- the module side of a shutdown: `active = false`, the runtime and its tasks dropped, then `module.activate()` -/
+def shutMod (now : Nat) (m : ModRt) : ModRt :=
+  activate now { killTasks m with shutdownReq := none, active := false, inc := m.inc + 1 }
+
+/-- `ModuleRef::reset` = `AsyncCoreExt::reset` builds the runtime of the next incarnation with a seed drawn from the
+    simulation's RNG right here, then `Harness::exec(handler.reset())` runs on it (the harness logs `reset`);
+    then `module.deactivate(rt)` -/
+def resetStage (net : Net) (a : Ambient) (s : Sim) (mi : Nat) (path : String) : Sim :=
+  let s1 := ((s.pop.2).recordSeed path s).log path "reset" "H" "-" []
+  deactivate net.skipEmpty (schedLoop net a mi path (execFuel s1 mi) s1) mi
+
+/-- the second half of `buf_process`: a requested shutdown, and the `ModuleRestartEvent` if one was asked for -/
+def processShutdown (net : Net) (a : Ambient) (s : Sim) (mi : Nat) : Sim :=
+  match s.mods[mi]? with
+  | none => s
+  | some m =>
+    match m.shutdownReq with
+    | none => s
+    | some restart =>
+      let s1 := resetStage net a ((s.addDropped (unfinishedTags m)).updMod mi (shutMod s.now)) mi m.path
+      match restart with
+      | some t => s1.schedule (.restart mi) t
+      | none => s1
+
+/-- does the event run module code?  `handle_message` / `async_wakeup` check `active`; `at_sim_start`,
+    `at_sim_end` and `module_restart` do not -/
+def Callback.runs (active : Bool) : Callback → Bool
+  | .message _ => active
+  | .wakeup => active
+  | _ => true
+
+/-- `module.activate()`; a `ModuleRestartEvent` then sets `active` (`module_restart`) -/
+def wakeStage (s : Sim) (mi : Nat) : Callback → Sim
+  | .restart => (s.updMod mi (activate s.now)).updMod mi (fun m => { m with active := true })
+  | _ => s.updMod mi (activate s.now)
+
+/-- `Harness::exec` of the event, if the module runs code for it: tokio runtime (first event), callback, tasks -/
+def execStage (net : Net) (a : Ambient) (s : Sim) (mi : Nat) (m0 : ModRt) (cb : Callback) : Sim :=
+  if cb.runs m0.active then
+    let s2 := runCallback net (seedStage s mi m0.path m0.seeded) mi m0 cb
+    schedLoop net a mi m0.path (execFuel s2 mi) s2
+  else s
+
 /-- `module.activate(); module.<event>(); module.deactivate(rt); buf_process(module, rt)`
-    (`flush = false` for `at_sim_end`) -/
+    (`flush = false` for `at_sim_end`, which does not call `buf_process`) -/
 def moduleEvent (net : Net) (a : Ambient) (s : Sim) (mi : Nat) (cb : Callback) (flush : Bool) : Sim :=
   match s.mods[mi]? with
   | none => { s with fault := some "no-such-module" }
   | some m0 =>
-    let s1 := seedStage (s.updMod mi (activate s.now)) mi m0.seeded
-    let s2 := runCallback net s1 mi m0 cb
-    let s3 := schedLoop net a mi m0.path (execFuel s2 mi) s2
-    let s4 := deactivate net.skipEmpty s3 mi
-    if flush then s4.flush else s4
+    let s4 := deactivate net.skipEmpty (execStage net a (wakeStage s mi cb) mi m0 cb) mi
+    if flush then processShutdown net a s4.flush mi else s4
 
 def Sim.setFes (s : Sim) (f : FES.State) : Sim := { s with fes := f }
 
@@ -460,6 +561,7 @@ def dispatch (net : Net) (a : Ambient) (s : Sim) : Option KEvent → Sim
   | none => { s with fault := some "no-such-event" }
   | some (KEvent.deliver mi m) => moduleEvent net a s mi (.message m) true
   | some (KEvent.wakeup mi) => moduleEvent net a s mi .wakeup true
+  | some (KEvent.restart mi) => moduleEvent net a s mi .restart true
   | some (KEvent.exitConn mi m) => s.schedule (.deliver mi m) s.now
 
 /-- `Runtime::dispatch_event`: the next event is the one the abstract event set (C01/C03) yields;
@@ -493,7 +595,7 @@ def simEnd (net : Net) (a : Ambient) (s : Sim) : Sim :=
 def init (net : Net) (a : Ambient) (stream : List Nat) : Sim :=
   { mods := net.mods.map (fun m => { path := m.path, id := a.modId m.cidx, ttl0 := m.ttl }),
     fes := FES.init, evs := [], buf := [], stream := stream, serial := 0, nextSleep := 0,
-    trace := [], fault := none }
+    trace := [], fault := none, dropped := [], seeds := [] }
 
 structure Result where
   trace : List Obs          -- oldest first
@@ -504,6 +606,7 @@ structure Result where
   rest : List Nat           -- unused part of the stream
   sleeps : Nat              -- sleep ids consumed
   unfinished : List (String × String)   -- (module path, task tag) of the tasks that did not run to their end
+  seeds : List (String × Nat)           -- the tokio `RngSeed`s, per runtime built
 deriving Repr
 
 def finalSim (net : Net) (a : Ambient) (stream : List Nat) (fuel : Nat) : Sim × Nat :=
@@ -513,11 +616,6 @@ def finalSim (net : Net) (a : Ambient) (stream : List Nat) (fuel : Nat) : Sim ×
   | some _ => r
   | none => (simEnd net a r.1, r.2)
 
-def TaskRt.finished (t : TaskRt) : Bool :=
-  match t.prog, t.wait with
-  | [], .run => true
-  | _, _ => false
-
 def unfinishedOf (ms : List ModRt) : List (String × String) :=
   ms.flatMap (fun m => (m.tasks.filter (fun t => !t.finished)).map (fun t => (m.path, t.tag)))
 
@@ -525,7 +623,8 @@ def unfinishedOf (ms : List ModRt) : List (String × String) :=
 def run (net : Net) (a : Ambient) (stream : List Nat) (fuel : Nat) : Result :=
   let r := finalSim net a stream fuel
   { trace := r.1.trace.reverse, time := r.1.now, events := r.2, left := FES.len r.1.fes,
-    fault := r.1.fault, rest := r.1.stream, sleeps := r.1.nextSleep, unfinished := unfinishedOf r.1.mods }
+    fault := r.1.fault, rest := r.1.stream, sleeps := r.1.nextSleep,
+    unfinished := r.1.dropped ++ unfinishedOf r.1.mods, seeds := r.1.seeds }
 
 /-! ### module-tree order (`ModuleTree::add`), on paths; used to build `Net.mods` -/
 
